@@ -10,7 +10,9 @@ namespace nmtools::view
     constexpr auto degrees(const array_t& a)
     {
         using element_t = meta::get_element_type_t<array_t>;
-        constexpr auto b = static_cast<element_t>(180) / pi_v<element_t>;
+        // NOTE: for an integer array the constant must not be computed in the integer type (180/3 == 60)
+        using constant_t = meta::conditional_t<meta::is_floating_point_v<element_t>, element_t, double>;
+        constexpr auto b = static_cast<constant_t>(180) / pi_v<constant_t>;
         return view::multiply(a,b);
     }
 } // nmtools::view
